@@ -99,6 +99,40 @@ def pbm_spec(draw):
             "adaptive": draw(st.sampled_from([True, True, True, False]))}
 
 
+def draw_reconfigure(draw, sc):
+    """A second run on the same model after an interfacial or the grain-boundary energy was changed (kept admissible for boundary-type
+    sites: k = gbe/(2 gamma) below its limit) and the results were reset: stored under sc['reconfigure']."""
+    rc = {}
+    gbs = [p for p in sc["phases"] if p["site"] in KMAX]
+    if gbs and draw(st.booleans()):
+        rc["gbe"] = min(2 * draw(st.floats(0.0, 0.95)) * KMAX[p["site"]] * p["gamma"] for p in gbs)
+    else:
+        p = sc["phases"][draw(st.integers(0, len(sc["phases"]) - 1))]
+        gam = p["gamma"] * draw(st.floats(0.7, 1.5))
+        if p["site"] in KMAX and "gbe" in sc:
+            gam = max(gam, sc["gbe"] / (2 * 0.95 * KMAX[p["site"]]))
+        rc["gamma"] = {p["name"]: float(gam)}
+    sc["reconfigure"] = rc
+
+
+def _param_calls(draw, sc):
+    """Parameters set again between two solve calls of the same model (a parameter study continued on one object): the molar
+    volume of a precipitate phase, by a factor 0.8-1.3.  Keys are phase indices as strings (JSON)."""
+    if len(sc["durations"]) < 2 or draw(st.integers(0, 4)) != 0:
+        return
+    calls = []
+    for _ in sc["durations"][1:]:
+        ch = {}
+        for i, p in enumerate(sc["phases"]):
+            if draw(st.booleans()):
+                f = draw(st.floats(0.8, 1.3))
+                v = p["VmB"]
+                ch[str(i)] = [v[0] * (f if v[1] in ("VM", "VA") else f ** (1.0 / 3.0)), v[1], v[2]]
+        calls.append(ch)
+    if any(calls):
+        sc["VmB_calls"] = calls
+
+
 @st.composite
 def constraints_spec(draw):
     c = {"dtScale": draw(st.sampled_from([1e-3, 0.05, 0.05, 0.2]))}
@@ -178,6 +212,7 @@ def toy_binary_scenario(draw, cap=400, max_phases=3, allow_profile=True, sites=N
     if opts:
         sc["options"] = opts
     _draw_api(draw, sc)
+    _param_calls(draw, sc)
     return sc
 
 
@@ -234,6 +269,7 @@ def toy_multi_scenario(draw, cap=300, max_phases=2, allow_profile=True, min_phas
             kf = 0.0          # grain-boundary energy exactly 0 (documented: equivalent to bulk precipitation)
         sc["gbe"] = min(2 * kf * KMAX[p["site"]] * p["gamma"] for p in gbs)
     _draw_api(draw, sc)
+    _param_calls(draw, sc)
     return sc
 
 
@@ -267,4 +303,5 @@ def real_scenario(draw, cap=120, systems=("alzr", "nicral")):
                "constraints": cons, "iterator": draw(st.sampled_from(["euler", "rk4"])),
                "durations": [total] if nd == 1 else [total * 0.4, total * 0.6], "cap": cap})
     _draw_api(draw, sc)
+    _param_calls(draw, sc)
     return sc
